@@ -1,5 +1,5 @@
 """C20 Background refresh never clobbers concurrent wallet operations."""
-import json, random, itertools
+import json, random, itertools, subprocess, os
 from wallet_checks import mc_and_gen, select_behaviours
 from wallet_common import *
 from common import *
@@ -110,6 +110,56 @@ def more_log_entries_than_any_serial(e):
         return logs(e["final"]) > max(logs(s) for s in e["serials"])
     except Exception:
         return False
+
+
+def updater_lifecycle(tier, rnd):
+    """spec/Updater.tla: TLC checks the life cycle of the background updater (mutual exclusion of runs, a stop honoured
+    within one more pass, termination of a stopped run under fairness), generates driver scripts, the scripts run on the
+    real api::Owner (the wallet's own updater threads parked at every lock point) and TLC validates the observed thread
+    events against the model.  Conformance only: none of the listed properties is decided here."""
+    out = {}
+    try:
+        r = run_tlc("Updater.tla", "MC_Updater.cfg", "upd_mc", workers=4, timeout=600, keep_tags=())
+        out["mc"] = {"states": r["states"], "transitions": r["transitions"], "completed": r["completed"], "violated": r["violated"],
+                     "checked": ["OneRunner", "HolderRuns", "StopWithinOnePass", "FlagCoversRun", "StoppedEnds (liveness, weak fairness)"]}
+        g = run_tlc("MCUpdater.tla", "MC_Updater_gen.cfg", "upd_gen", workers=4, timeout=600, keep_tags=("SCRIPT",), max_keep=100000)
+        scripts = parse_printed(g["printed"]["SCRIPT"], "SCRIPT")
+        ser = sorted(set(json.dumps(x) for x in scripts))
+        pref = set()
+        for x in ser:
+            y = json.loads(x)
+            for i in range(1, len(y)):
+                pref.add(json.dumps(y[:i]))
+        maximal = [json.loads(x) for x in ser if x not in pref]
+        n = 12 if tier == "quick" else 400
+        pick = maximal if len(maximal) <= n else rnd.sample(maximal, n)
+        build_harness(["replay_updater"])
+        d = workdir("replay_updater")
+        inp, outp = os.path.join(d, "in.json"), os.path.join(d, "events.ndjson")
+        json.dump({"scripts": pick}, open(inp, "w"))
+        env = dict(os.environ, VERIF_TMP=os.environ.get("VERIF_TMP", os.path.join(HARNESS, "target", "tmp")))
+        p = subprocess.run(["timeout", "1500", os.path.join(BIN, "replay_updater"), "--in", inp, "--out", outp], env=env,
+                           stdout=subprocess.PIPE, stderr=subprocess.STDOUT, text=True)
+        if p.returncode != 0 or not os.path.exists(outp):
+            raise ToolError("replay_updater failed: " + p.stdout[-500:])
+        tv = run_tlc("TraceUpdater.tla", "TraceUpdater.cfg", "upd_tv", workers=1, env={"TRACE": outp}, timeout=600, depth_first=True,
+                     keep_tags=("NONCONF",))
+        nc = parse_printed(tv["printed"]["NONCONF"], "NONCONF")
+        evs = read_ndjson(outp)
+        kinds = {}
+        for e in evs:
+            kinds[e["ev"]] = kinds.get(e["ev"], 0) + 1
+        out.update({"scripts_generated": len(maximal), "scripts_executed": len(pick), "events_validated": len(evs), "event_kinds": kinds,
+                    "consumed": tlc_consumed(tv["out"]), "trace_invariants_violated": tv["violated"], "nonconformances": len(nc), "first": nc[:3],
+                    "gen_states": g["states"]})
+        if nc or tv["violated"] or tlc_consumed(tv["out"]) is None:
+            log("NONCONFORMANCE (updater life cycle): %d observed thread events are not steps of spec/Updater.tla; first: %s" % (len(nc), nc[:2]))
+        else:
+            log("  updater life cycle: %d scripts, %d observed events are a behaviour of spec/Updater.tla (%d model states)" % (len(pick), len(evs), r["states"]))
+    except Exception as ex:          # conformance only: never decides the check
+        out["error"] = str(ex)[:300]
+        log("NONCONFORMANCE (updater life cycle): not evaluated: %s" % out["error"])
+    return out
 
 
 def run(tier, replay_path, t0):
@@ -255,6 +305,7 @@ def run(tier, replay_path, t0):
                          "opres": e["opres"], "rres": e["rres"], "count": 0, "fields": detail, "opkinds": e["opkinds"]}
         keys[key]["count"] += 1
     known, new = classify(prop, keys)
+    upd = {} if replay_path else updater_lifecycle(tier, rnd)
     conc = [e for e in events if e["ev"] == "conc"]
     if not replay_path and not conc:
         raise ToolError("no schedule was executed (vacuity guard)")
@@ -272,7 +323,7 @@ def run(tier, replay_path, t0):
         "schedules_by_kind": kinds, "non_serializable": sum(1 for v in viols if v["m"] == "Serializable"),
         "hangs": sum(1 for e in conc if e.get("hang")), "mc_configs": stats,
         "section_model": model_stats, "section_model_schedules_compared": compared, "layer_m_nonconformances": len(mismatches),
-        "layer_m_first": mismatches[:3], "harness_build_s": round(build_s, 1),
+        "layer_m_first": mismatches[:3], "harness_build_s": round(build_s, 1), "updater_lifecycle": upd,
         "exhaustive": all(len(s.get("schedules", [])) >= 1 for s in scen) and total_sched == len(conc),
     }
     finish(prop, tier, "model_checking", cov, WALLET_ASSUME, t0, known, new)
